@@ -33,6 +33,7 @@ mod wrappers;
 mod ops;
 mod ops_cps;
 mod ops_macros;
+mod ops_prover;
 mod ops_py;
 mod ops_reason;
 mod ops_rules;
